@@ -2,11 +2,11 @@
 From Coq Require Import ZArith List.
 From Coq Require Extraction.
 From Coq Require Import ExtrOcamlBasic.
-From C09 Require Import Model Model2.
+From C09 Require Import Model Model2 Model3.
 Extraction Language OCaml.
 Cd "ocaml".
 Extraction "model.ml" norm deg is_irreducible sqrfree split split1 ddf czfactor is_prim_root order
   random_irreducible creux_random_irreducible ixe_irreducible ixe_irreducible2 is_irreducible2 brute_order give_prim_root give_random_prim_root random_prim_root
   pgcd pdivmod pmul ppowmod pdiff brute_irreducible irreducible_b prime_factors
-  sqrfree_rep czfactor_rep.
+  sqrfree_rep czfactor_rep is_prim_root_L order_L factor1.
 Cd "..".
